@@ -21,6 +21,7 @@ type FuncResult struct {
 	NPaths      int
 	Covers      map[string][]coverInst
 	DeclsQF     string
+	Canaries    [][]Term
 }
 
 type coverInst struct {
@@ -62,6 +63,7 @@ func (e *Engine) verifyFunc(key string) (res *FuncResult) {
 		res.UsedSpecs = sortedKeys(x.usedSpecs)
 		res.Inlined = sortedKeys(x.inlined)
 		res.Covers = x.covers
+		res.Canaries = x.canaries
 	}()
 	x.computeLoops()
 	st := &State{x: x, heap: map[string]Term{}, nonnil: map[string]bool{}, iters: map[int]*Iter{}, inLoop: map[int]bool{}, onceDone: map[string]Term{}, statics: map[string]Val{}}
@@ -113,6 +115,12 @@ func (e *Engine) verifyFunc(key string) (res *FuncResult) {
 func (e *Engine) fileOf(fn *ssa.Function) string {
 	pos := e.prog.Fset.Position(fn.Pos())
 	return pos.Filename
+}
+
+func (x *Exec) addCanary(pc []Term) {
+	if len(x.canaries) < 400 {
+		x.canaries = append(x.canaries, append([]Term(nil), pc...))
+	}
 }
 
 func (x *Exec) addCover(name string, pc []Term, cond Term) {
@@ -212,6 +220,8 @@ func (x *Exec) atReturn(st *State, res []Val) {
 	for _, cs := range spec.Calls {
 		x.checkCallsSpec(st, env, cs)
 	}
+	// canary: the accumulated hypotheses at a return point must not be contradictory
+	x.addCanary(st.pc)
 	x.finish(st, "return")
 }
 
